@@ -144,7 +144,7 @@ func runC43(c *Ctx) {
 		sinfo := sr.Info()
 		c.checkWrites("cc", ccUpTo, map[string][]string{
 			"actor.(*consumerController).PreStart":    {"const:0"},
-			"actor.(*consumerController).sendRequest": {"var:*"},
+			"actor.(*consumerController).sendRequest": {"expr:.confirmedSeq+.window"},
 		}, "the consumer records exactly the demand it grants")
 		var sentArg, recorded, defShape string
 		ast.Inspect(sr.Decl.Body, func(n ast.Node) bool {
